@@ -84,7 +84,10 @@ func (n *Name) String() string {
 
 func NewSelf(Ident string) Name {
 	return Name{
-		Ident:  Ident, // technically, this should now be "" (except when using an explicit provider name)
+		// The identifier should be "" (except when using an explicit provider name): a 'self' that
+		// carries the indicative name of some channel can be captured by a bound name of the body
+		// which happens to be spelled the same, since unlinked names are substituted by identifier
+		Ident:  Ident,
 		IsSelf: true,
 		// todo add polarity (?)
 	}
